@@ -1,5 +1,5 @@
 (** Judge for C10: bootstrap supports equal their definitions (FBP and TBE).
-    case:  ((mode nil|fresh|chain) (ref T) (boots (T ...)) [(alg1 a) (alg2 a) (ref2 T) (boots2 (T ...))])
+    case:  ((mode nil|fresh|chain) (cpus n) (ref T) (boots (T ...)) [(alg1 a) (alg2 a) (ref2 T) (boots2 (T ...))])
     obs :  ((fbp RUN) (tbe RUN))  or, for mode chain (alg1 on (ref, boots) then alg2 on
            (ref2, boots2) with one shared Supporter),  ((first RUN) (second RUN));
            RUN = ((hang T)) | ((hang F) (panic "msg"))
@@ -14,7 +14,7 @@
     Correspondence (Model/Support.v): same error text and, when there is no error, the same
     supports within 1e-9.  *)
 From Coq Require Import String ZArith QArith Qabs Bool Arith List.
-From GT Require Import Base.Sexp Base.UTree Base.Codec Spec.Obs Spec.Support Model.Support Judge.Common.
+From GT Require Import Base.Sexp Base.UTree Base.Codec Spec.Obs Spec.Support Spec.SupportW Model.Support Model.SupportW Judge.Common.
 Import ListNotations.
 Local Close Scope Q_scope.
 Local Open Scope string_scope.
@@ -54,7 +54,7 @@ Definition show_q (q : Q) : string := string_of_Q (Qred q).
 Definition spec_is_tip (c : utree) : bool := match kids c with [] => true | _ => false end.
 
 (** one branch of the reference, one algorithm *)
-Definition check_branch (alg : string) (i : nat) (X : list string) (boots : list utree)
+Definition check_branch (alg : string) (i : nat) (X : list string) (boots : wtrees)
            (ec : einfo * utree) (g : bool * Q) (spec : Q) : option string :=
   let '(e, c) := ec in
   let A := leaves c in
@@ -65,7 +65,7 @@ Definition check_branch (alg : string) (i : nat) (X : list string) (boots : list
     else Some (here ++ " is a tip branch and received the support " ++ show_q gs)
   else
     let p := length (light X A) in
-    let all := Nat.eqb (n_with_split X A boots) (length boots) in
+    let all := Nat.eqb (wcnt (has_split X A) boots) (wlen boots) in
     let one_taxon := if Nat.eqb p 1 then " (inner branch with a one-taxon side)" else "" in
     if negb (qleb 0 gs && qleb gs 1) then
       Some (here ++ one_taxon ++ ": support " ++ show_q gs ++ " is outside [0,1]; the definition gives " ++ show_q spec)
@@ -81,7 +81,7 @@ Definition check_branch (alg : string) (i : nat) (X : list string) (boots : list
 Definition one_taxon_side (X : list string) (c : utree) : bool :=
   negb (spec_is_tip c) && Nat.eqb (length (light X (leaves c))) 1.
 
-Fixpoint check_branches (late : bool) (alg : string) (i : nat) (X : list string) (boots : list utree)
+Fixpoint check_branches (late : bool) (alg : string) (i : nat) (X : list string) (boots : wtrees)
          (spec : list string -> Q) (es : list (einfo * utree)) (gs : list (bool * Q)) : option string :=
   match es, gs with
   | [], [] => None
@@ -130,33 +130,33 @@ Definition both (a b : option string) : option string :=
   end.
 
 (** one call: [lab] names it in messages, [alg] is fbp or tbe *)
-Definition spec_of (alg : string) (X : list string) (boots : list utree) (A : list string) : Q :=
-  if String.eqb alg "fbp" then fbp_spec X A boots else tbe_spec X A boots.
+Definition spec_of (alg : string) (X : list string) (boots : wtrees) (A : list string) : Q :=
+  if String.eqb alg "fbp" then fbp_spec_w X A boots else tbe_spec_w X A boots.
 
-Definition oracle_early (lab alg : string) (ref : utree) (boots : list utree) (r : run) : option string :=
-  if forallb (same_taxa ref) boots then
+Definition oracle_early (lab alg : string) (ref : utree) (boots : wtrees) (r : run) : option string :=
+  if forallb (fun p => same_taxa ref (snd p)) boots then
     let X := leaves ref in
     first_some [ run_accepts lab r;
                  check_branches false lab 0 X boots (spec_of alg X boots) (edges ref) (rsup r) ]
   else run_rejects lab r.
 
-Definition oracle_late (lab alg : string) (ref : utree) (boots : list utree) (r : run) : option string :=
-  if forallb (same_taxa ref) boots then
+Definition oracle_late (lab alg : string) (ref : utree) (boots : wtrees) (r : run) : option string :=
+  if forallb (fun p => same_taxa ref (snd p)) boots then
     let X := leaves ref in
     check_branches true lab 0 X boots (spec_of alg X boots) (edges ref) (rsup r)
   else None.
 
 (** FBP and TBE on the same collection *)
-Definition oracle (ref : utree) (boots : list utree) (rf rt : run) : option string :=
-  if forallb (same_taxa ref) boots then
+Definition oracle (ref : utree) (boots : wtrees) (rf rt : run) : option string :=
+  if forallb (fun p => same_taxa ref (snd p)) boots then
     first_some [ oracle_early "fbp" "fbp" ref boots rf; oracle_early "tbe" "tbe" ref boots rt;
                  check_order (leaves ref) 0 (edges ref) (rsup rf) (rsup rt);
                  both (oracle_late "fbp" "fbp" ref boots rf) (oracle_late "tbe" "tbe" ref boots rt) ]
   else both (oracle_early "fbp" "fbp" ref boots rf) (oracle_early "tbe" "tbe" ref boots rt).
 
 (** two calls in a row (sharing one Supporter): each is judged on its own collection *)
-Definition oracle_chain (a1 a2 : string) (ref1 : utree) (boots1 : list utree) (ref2 : utree)
-           (boots2 : list utree) (r1 r2 : run) : option string :=
+Definition oracle_chain (a1 a2 : string) (ref1 : utree) (boots1 : wtrees) (ref2 : utree)
+           (boots2 : wtrees) (r1 r2 : run) : option string :=
   let l1 := "first call (" ++ a1 ++ ")" in
   let l2 := "second call (" ++ a2 ++ ", same Supporter)" in
   first_some [ both (oracle_early l1 a1 ref1 boots1 r1) (oracle_early l2 a2 ref2 boots2 r2);
@@ -175,7 +175,10 @@ Fixpoint sup_agree (alg : string) (i : nat) (m g : list (bool * Q)) : option str
   end.
 
 (** [progress]: the value sup.Progress() must have after the call (None: no Supporter) *)
-Definition corr_run (alg : string) (m : outcome) (progress : option nat) (r : run) : option string :=
+(** with several threads and an error the number of trees read is schedule dependent *)
+Definition par_of (c : sexp) : bool := match get_nat "cpus" c with Some n => Nat.ltb 1 n | None => false end.
+
+Definition corr_run (par : bool) (alg : string) (m : outcome) (progress : option nat) (r : run) : option string :=
   if rhang r then Some (alg ++ ": implementation does not return, model returns")
   else match rpanic r with
        | Some p => Some (alg ++ ": implementation panics (" ++ p ++ "), model returns")
@@ -189,37 +192,45 @@ Definition corr_run (alg : string) (m : outcome) (progress : option nat) (r : ru
              match progress, rprog r with
              | None, _ => None
              | Some n, Some g =>
-               if Nat.eqb n g then None
+               if Nat.eqb n g || (par && negb (String.eqb (oerr m) "")) then None
                else Some (alg ++ ": Supporter.Progress() is " ++ string_of_nat g ++ ", model " ++ string_of_nat n)
              | Some _, None => Some (alg ++ ": no progress value in the observation")
              end
            end
        end.
 
-Definition model_of (alg : string) (ref : utree) (boots : list utree) : outcome :=
-  if String.eqb alg "fbp" then fbp ref boots else Model.Support.tbe ref boots.
+(** a plain list goes through the model proper, a list with multiplicities through its
+    closed form (Proofs/SupportW.v: the same outcome as on the expanded list) *)
+Definition plain (boots : wtrees) : bool := forallb (fun p => Nat.eqb (fst p) 1) boots.
+Definition model_of (alg : string) (ref : utree) (boots : wtrees) : outcome :=
+  if plain boots then
+    (if String.eqb alg "fbp" then fbp ref (map snd boots) else Model.Support.tbe ref (map snd boots))
+  else
+    (if String.eqb alg "fbp" then fbp_w ref boots else tbe_w ref boots).
 
-Definition corr (fresh : bool) (ref : utree) (boots : list utree) (rf rt : run) : option string :=
-  let pr := if fresh then Some (n_processed ref boots) else None in
-  first_some [ corr_run "fbp" (fbp ref boots) pr rf; corr_run "tbe" (Model.Support.tbe ref boots) pr rt ].
+Definition corr (par fresh : bool) (ref : utree) (boots : wtrees) (rf rt : run) : option string :=
+  let pr := if fresh then Some (wn_processed ref boots) else None in
+  first_some [ corr_run par "fbp" (model_of "fbp" ref boots) pr rf; corr_run par "tbe" (model_of "tbe" ref boots) pr rt ].
 
-Definition corr_chain (a1 a2 : string) (ref1 : utree) (boots1 : list utree) (ref2 : utree)
-           (boots2 : list utree) (r1 r2 : run) : option string :=
-  let n1 := n_processed ref1 boots1 in
-  first_some [ corr_run ("first call (" ++ a1 ++ ")") (model_of a1 ref1 boots1) (Some n1) r1;
-               corr_run ("second call (" ++ a2 ++ ")") (model_of a2 ref2 boots2)
-                        (Some (n1 + n_processed ref2 boots2)) r2 ].
+Definition corr_chain (par : bool) (a1 a2 : string) (ref1 : utree) (boots1 : wtrees) (ref2 : utree)
+           (boots2 : wtrees) (r1 r2 : run) : option string :=
+  let n1 := wn_processed ref1 boots1 in
+  first_some [ corr_run par ("first call (" ++ a1 ++ ")") (model_of a1 ref1 boots1) (Some n1) r1;
+               corr_run par ("second call (" ++ a2 ++ ")") (model_of a2 ref2 boots2)
+                        (if par && negb (String.eqb (oerr (model_of a1 ref1 boots1)) "") then None
+                         else Some (n1 + wn_processed ref2 boots2)) r2 ].
 
 (** ** statistics *)
 Definition strictly_inside (q : Q) : bool := negb (qleb q 0) && negb (qleb 1 q).
-Definition nontrivial_case (ref : utree) (boots : list utree) : bool :=
+Definition nontrivial_case (ref : utree) (boots : wtrees) : bool :=
   let X := leaves ref in
   existsb (fun ec => negb (spec_is_tip (snd ec)) &&
-                     (strictly_inside (fbp_spec X (leaves (snd ec)) boots) ||
-                      strictly_inside (tbe_spec X (leaves (snd ec)) boots))) (edges ref).
+                     (strictly_inside (fbp_spec_w X (leaves (snd ec)) boots) ||
+                      strictly_inside (tbe_spec_w X (leaves (snd ec)) boots))) (edges ref).
 
-Definition in_domain (ref : utree) (boots : list utree) : bool :=
-  tree_ok ref && forallb tree_ok boots && Nat.leb 4 (length (leaves ref)) && negb (Nat.eqb (length boots) 0).
+Definition in_domain (ref : utree) (boots : wtrees) : bool :=
+  tree_ok ref && forallb (fun p => tree_ok (snd p) && Nat.leb 1 (fst p)) boots &&
+  Nat.leb 4 (length (leaves ref)) && negb (Nat.eqb (wlen boots) 0).
 
 Definition finish (om cm : option string) (nontrivial : bool) (tag : string) : verdict :=
   match om with
@@ -235,7 +246,15 @@ Definition finish (om cm : option string) (nontrivial : bool) (tag : string) : v
     end
   end.
 
-Definition get_trees (k : string) (c : sexp) : option (list utree) := x <- get k c ;; dec_list dec_utree x.
+(** a bootstrap collection: trees, or (repeat k tree) for k consecutive copies *)
+Definition dec_wtree (s : sexp) : option (nat * utree) :=
+  match s with
+  | SList [Atom a; k; t] =>
+    if String.eqb a "repeat" then (n <- dec_nat k ;; u <- dec_utree t ;; Some (n, u))
+    else (u <- dec_utree s ;; Some (1, u))
+  | _ => u <- dec_utree s ;; Some (1, u)
+  end.
+Definition get_trees (k : string) (c : sexp) : option wtrees := x <- get k c ;; dec_list dec_wtree x.
 Definition get_run (k : string) (o : sexp) : option run := x <- get k o ;; dec_run x.
 
 Definition is_alg (a : string) : bool := String.eqb a "fbp" || String.eqb a "tbe".
@@ -246,10 +265,10 @@ Definition judge_pair (fresh : bool) (c o : sexp) : verdict :=
     if negb (in_domain ref boots) then VBad "case outside the domain of the property"
     else
       let pre := if fresh then "fresh-supporter:" else "" in
-      if forallb (same_taxa ref) boots
-      then finish (oracle ref boots rf rt) (corr fresh ref boots rf rt) (nontrivial_case ref boots)
+      if forallb (fun p => same_taxa ref (snd p)) boots
+      then finish (oracle ref boots rf rt) (corr (par_of c) fresh ref boots rf rt) (nontrivial_case ref boots)
                   (pre ++ (if rooted ref then "accept:rooted-ref" else "accept:unrooted-ref"))
-      else finish (oracle ref boots rf rt) (corr fresh ref boots rf rt) true (pre ++ "reject")
+      else finish (oracle ref boots rf rt) (corr (par_of c) fresh ref boots rf rt) true (pre ++ "reject")
   | _, _, _, _ => VBad "undecodable case or observation"
   end.
 
@@ -262,17 +281,103 @@ Definition judge_chain (c o : sexp) : verdict :=
     then VBad "case outside the domain of the property"
     else
       finish (oracle_chain a1 a2 ref1 boots1 ref2 boots2 r1 r2)
-             (corr_chain a1 a2 ref1 boots1 ref2 boots2 r1 r2)
-             (negb (forallb (same_taxa ref2) boots2) || nontrivial_case ref2 boots2)
+             (corr_chain (par_of c) a1 a2 ref1 boots1 ref2 boots2 r1 r2)
+             (negb (forallb (fun p => same_taxa ref2 (snd p)) boots2) || nontrivial_case ref2 boots2)
              ("chain:" ++ a1 ++ ">" ++ a2 ++
-              (if forallb (same_taxa ref1) boots1 then ":accept" else ":reject") ++
-              (if forallb (same_taxa ref2) boots2 then ">accept" else ">reject"))
+              (if forallb (fun p => same_taxa ref1 (snd p)) boots1 then ":accept" else ":reject") ++
+              (if forallb (fun p => same_taxa ref2 (snd p)) boots2 then ">accept" else ">reject"))
   | _, _, _, _, _, _, _, _ => VBad "undecodable case or observation"
+  end.
+
+(** ** mode family: transfer distances on a pair of trees with more than 65536 taxa
+    reference (((a,b),(c,d)),(e,f),H), bootstrap ((H,(c,e)),(a,f),(b,d)), H the same clade on m taxa
+    in groups of g.  The worker reports, for the ten reference branches outside H and the branch
+    above H, TopoDepth and MinTransferDist with absent = false / true on the trees with the m of
+    the case.  The judge does not rebuild trees of that size: it evaluates the definition
+    ([delta]) and the model on the member of the family with m = 12, g = 4.  For these eleven
+    branches neither the light side nor the transfer index depends on m >= 8, g >= 2: the light
+    side lies within {a..f}; a bootstrap branch inside H is at distance > p - 1; the branches H
+    and (H,(c,e)) are reached through their complements, which lie within {a..f}.  (A closed
+    form for one family: a test, not a theorem.) *)
+Definition ftip (n : string) : utree := UNode n [] [None].
+Definition fnode (l : list utree) : utree := UNode "" [] (None :: map (fun c => Some (e0, c)) l).
+Definition froot (l : list utree) : utree := UNode "" [] (map (fun c => Some (e0, c)) l).
+Definition fam_H : utree :=
+  fnode [fnode [ftip "h00"; ftip "h01"; ftip "h02"; ftip "h03"];
+         fnode [ftip "h04"; ftip "h05"; ftip "h06"; ftip "h07"];
+         fnode [ftip "h08"; ftip "h09"; ftip "h10"; ftip "h11"]].
+Definition fam_ref : utree :=
+  froot [fnode [fnode [ftip "a"; ftip "b"]; fnode [ftip "c"; ftip "d"]]; fnode [ftip "e"; ftip "f"]; fam_H].
+Definition fam_boot : utree :=
+  froot [fnode [fam_H; fnode [ftip "c"; ftip "e"]]; fnode [ftip "a"; ftip "f"]; fnode [ftip "b"; ftip "d"]].
+
+Definition dec_ztriple (s : sexp) : option (Z * Z * Z) :=
+  match s with
+  | SList [a; b; c] => x <- dec_Z a ;; y <- dec_Z b ;; z <- dec_Z c ;; Some (x, y, z)
+  | _ => None
+  end.
+Definition show_ztriple (t : Z * Z * Z) : string :=
+  "(" ++ string_of_Z (fst (fst t)) ++ ", " ++ string_of_Z (snd (fst t)) ++ ", " ++ string_of_Z (snd t) ++ ")".
+Definition neg_triple (t : Z * Z * Z) : bool :=
+  (fst (fst t) <? 0)%Z || (snd (fst t) <? 0)%Z || (snd t <? 0)%Z.
+Definition nat_triple (t : Z * Z * Z) : nat * nat * nat :=
+  (Z.to_nat (fst (fst t)), Z.to_nat (snd (fst t)), Z.to_nat (snd t)).
+
+Fixpoint fam_check (i : nat) (es : list (einfo * utree)) (g : list (nat * nat * nat))
+  : option string * option string :=        (* (oracle, correspondence) *)
+  match es, g with
+  | [], [] => (None, None)
+  | ec :: es', (gp, g0, g1) :: g' =>
+    let c := snd ec in
+    let X := leaves fam_ref in
+    let L := light X (leaves c) in
+    let p := length L in
+    let dl := delta X L fam_boot in
+    let mp := topo_depth fam_ref c in
+    let m0 := min_transfer_dist (length (tips fam_ref)) mp (ntax_right c) (below c) false fam_boot in
+    let m1 := min_transfer_dist (length (tips fam_ref)) mp (ntax_right c) (below c) true fam_boot in
+    let here := "family: reference branch " ++ string_of_nat i ++ " (light side " ++ string_of_nat p ++ "): " in
+    let o :=
+        if negb (Nat.eqb gp p) then Some (here ++ "TopoDepth is " ++ string_of_nat gp)
+        else if negb (Nat.eqb g0 dl)
+        then Some (here ++ "transfer distance to the bootstrap tree is " ++ string_of_nat g0 ++
+                   ", the definition gives " ++ string_of_nat dl)
+        else if Nat.leb 2 p && Nat.leb 1 dl && negb (Nat.eqb g1 dl)
+        then Some (here ++ "transfer distance (absent = true) is " ++ string_of_nat g1 ++
+                   ", the definition gives " ++ string_of_nat dl)
+        else None in
+    let k :=
+        if Nat.eqb gp mp && Nat.eqb g0 m0 && Nat.eqb g1 m1 then None
+        else Some (here ++ "model (p, d, d absent) = (" ++ string_of_nat mp ++ ", " ++ string_of_nat m0 ++ ", " ++
+                   string_of_nat m1 ++ "), implementation (" ++ string_of_nat gp ++ ", " ++ string_of_nat g0 ++
+                   ", " ++ string_of_nat g1 ++ ")") in
+    let '(o', k') := fam_check (S i) es' g' in
+    (match o with Some _ => o | None => o' end, match k with Some _ => k | None => k' end)
+  | _, _ => (Some "family: eleven branches expected", None)
+  end.
+
+Definition judge_family (c o : sexp) : verdict :=
+  match get_nat "m" c, get_nat "g" c, get_nat "ntips" o, (x <- get "dist" o ;; dec_list dec_ztriple x) with
+  | Some m, Some g, Some nt, Some zs =>
+    if negb (Nat.leb 12 m && Nat.leb 2 g) then VBad "family: case outside the family"
+    else if negb (Nat.eqb nt (m + 6)) then VOracle "family: wrong number of tips"
+    else match find neg_triple zs with
+         | Some t => VOracle ("family: negative TopoDepth or transfer distance (p, d, d absent) = " ++ show_ztriple t)
+         | None =>
+           let '(om, cm) := fam_check 0 (firstn 11 (edges fam_ref)) (map nat_triple zs) in
+           finish om cm true "family"
+         end
+  | _, _, _, _ =>
+    match get_string "panic" o with
+    | Some msg => VOracle ("family: panic: " ++ msg)
+    | None => VBad "undecodable case or observation"
+    end
   end.
 
 Definition judge (c o : sexp) : verdict :=
   match get_string "mode" c with
   | Some m => if String.eqb m "chain" then judge_chain c o
+              else if String.eqb m "family" then judge_family c o
               else if String.eqb m "fresh" then judge_pair true c o
               else judge_pair false c o
   | None => judge_pair false c o
